@@ -2058,8 +2058,17 @@ impl WasmGenerator {
                                 ValType::I64
                             }
                         }
-                        // Phi inherits type from its first input
-                        I::Phi(v1, _) => self.infer_value_type(v1),
+                        // Phi inherits type from its first input. An input that is a bare element
+                        // access of a number (`if (c) { t.2 } else { x }`) is an address: the value
+                        // that flows out of the arm is the number it points to.
+                        I::Phi(v1, _) => match v1.as_ref() {
+                            mir::Value::Register(r)
+                                if self.getelement_registers.get(r) == Some(&ValType::F64) =>
+                            {
+                                ValType::F64
+                            }
+                            _ => self.infer_value_type(v1),
+                        },
                         // Type casts
                         I::CastFtoI(_) | I::CastItoB(_) => ValType::I64,
                         I::CastItoF(_) => ValType::F64,
